@@ -419,3 +419,132 @@ def xfa_fields(path):
     walk(root, '', {}, None)
     _CACHE[key] = out
     return out
+
+
+# ---------------------------------------------------------------------------
+# page text through the fonts' ToUnicode CMaps (used for the NC templates)
+
+def _parse_cmap(data):
+    """ToUnicode CMap -> (code length in bytes, {code: str})"""
+    m = {}
+    codelen = 1
+    cs = re.search(rb'begincodespacerange\s*<([0-9A-Fa-f]+)>', data)
+    if cs:
+        codelen = len(cs.group(1)) // 2
+    for blk in re.finditer(rb'beginbfchar(.*?)endbfchar', data, re.S):
+        for a, b in re.findall(rb'<([0-9A-Fa-f]+)>\s*<([0-9A-Fa-f]*)>', blk.group(1)):
+            m[int(a, 16)] = bytes.fromhex(b.decode()).decode('utf-16-be', 'replace') if b else ''
+    for blk in re.finditer(rb'beginbfrange(.*?)endbfrange', data, re.S):
+        body = blk.group(1)
+        for a, b, c in re.findall(rb'<([0-9A-Fa-f]+)>\s*<([0-9A-Fa-f]+)>\s*<([0-9A-Fa-f]+)>', body):
+            lo, hi, start = int(a, 16), int(b, 16), int(c, 16)
+            for k in range(lo, hi + 1):
+                try:
+                    m[k] = chr(start + k - lo) if len(c) <= 4 else bytes.fromhex(c.decode()).decode('utf-16-be', 'replace')
+                except ValueError:
+                    pass
+        for a, b, arr in re.findall(rb'<([0-9A-Fa-f]+)>\s*<([0-9A-Fa-f]+)>\s*\[(.*?)\]', body, re.S):
+            lo = int(a, 16)
+            for k, h in enumerate(re.findall(rb'<([0-9A-Fa-f]+)>', arr)):
+                m[lo + k] = bytes.fromhex(h.decode()).decode('utf-16-be', 'replace')
+    return codelen, m
+
+
+def page_texts(path):
+    """list (one per page) of decoded text; text-showing operators are joined with
+    spaces when the TJ displacement is large or a new text line starts"""
+    key = ('pagetext', path)
+    if key in _CACHE:
+        return _CACHE[key]
+    doc = load(path)
+    pages = []
+
+    def collect(node):
+        node = doc.resolve(node)
+        if not isinstance(node, dict):
+            return
+        if node.get('Type') == 'Pages':
+            for k in doc.resolve(node.get('Kids')) or []:
+                collect(k)
+        elif node.get('Type') == 'Page':
+            pages.append(node)
+    collect(doc.catalog().get('Pages'))
+    out = []
+    for pg in pages:
+        res = doc.resolve(pg.get('Resources')) or {}
+        fonts = {}
+        for name, fref in (doc.resolve(res.get('Font')) or {}).items():
+            f = doc.resolve(fref)
+            tu = doc.resolve(f.get('ToUnicode')) if isinstance(f, dict) else None
+            if isinstance(tu, Stream):
+                try:
+                    fonts[name] = _parse_cmap(tu.data())
+                except Exception:
+                    pass
+        contents = doc.resolve(pg.get('Contents'))
+        streams = contents if isinstance(contents, list) else [contents]
+        data = b''
+        for s in streams:
+            s = doc.resolve(s)
+            if isinstance(s, Stream):
+                try:
+                    data += s.data() + b'\n'
+                except Exception:
+                    pass
+        out.append(_content_text(data, fonts))
+    _CACHE[key] = out
+    return out
+
+
+def _decode(b, font):
+    if font is None:
+        return b.decode('latin-1')
+    codelen, cmap = font
+    chars = []
+    for k in range(0, len(b) - codelen + 1, codelen):
+        code = int.from_bytes(b[k:k + codelen], 'big')
+        chars.append(cmap.get(code, ''))
+    return ''.join(chars)
+
+
+def _content_text(data, fonts):
+    p = Parser(data)
+    stack = []
+    font = None
+    out = []
+    n = len(data)
+    while True:
+        p.skip()
+        if p.p >= n:
+            break
+        try:
+            tok = p.parse()
+        except Exception:
+            p.p += 1
+            continue
+        if isinstance(tok, Name) and not data[max(0, p.p - len(tok) - 1):p.p].startswith(b'/'):
+            op = str(tok)
+            if op == 'Tf' and len(stack) >= 2:
+                font = fonts.get(str(stack[-2]))
+            elif op == 'Tj' and stack and isinstance(stack[-1], bytes):
+                out.append(_decode(stack[-1], font))
+            elif op == 'TJ' and stack and isinstance(stack[-1], list):
+                for el in stack[-1]:
+                    if isinstance(el, bytes):
+                        out.append(_decode(el, font))
+                    elif isinstance(el, (int, float)) and el < -200:
+                        out.append(' ')
+            elif op in ("'", '"') and stack and isinstance(stack[-1], bytes):
+                out.append('\n' + _decode(stack[-1], font))
+            elif op in ('Td', 'TD', 'T*', 'Tm', 'ET'):
+                out.append('\n')
+            if op == 'BI':
+                e = data.find(b'EI', p.p)
+                p.p = e + 2 if e > 0 else n
+            stack = []
+        else:
+            stack.append(tok)
+    text = ''.join(out)
+    text = re.sub(r'[ \t]+', ' ', text)
+    text = re.sub(r'\s*\n\s*', '\n', text)
+    return text
